@@ -824,7 +824,7 @@ class _Ctx:
         return info
 
     @staticmethod
-    def _literal_items(it: Term):
+    def _literal_items(it: Term, allow_range: bool = True):
         """Items of a literal tuple / list display whose elements are all known (constants or tuples of terms)."""
         def plain(items):
             return all(not (isinstance(x, App) and x.fn == '*') for x in items)
@@ -832,12 +832,17 @@ class _Ctx:
             return list(it.items)
         if isinstance(it, Fresh) and it.kind == 'list' and it.detail is None and 0 < len(it.items) <= 8 and plain(it.items):
             return list(it.items)
+        if allow_range and isinstance(it, App) and it.fn == 'range' and not it.kw and 1 <= len(it.args) <= 2 and \
+                all(isinstance(a, Num) and isinstance(a.value, Fraction) and a.value.denominator == 1 for a in it.args):
+            lo, hi = (0, int(it.args[0].value)) if len(it.args) == 1 else (int(it.args[0].value), int(it.args[1].value))
+            if 0 < hi - lo <= 8:
+                return [Num(Fraction(i)) for i in range(lo, hi)]
         return None
 
     def st_For(self, s, st):
         it = self.ev(s.iter, st, stmt=s)
         lid = s.lineno
-        items = self._literal_items(it) if (not isinstance(s.iter, ast.Name) or isinstance(it, TupleT)) else None
+        items = self._literal_items(it, allow_range=False) if (not isinstance(s.iter, ast.Name) or isinstance(it, TupleT)) else None
         if items is not None and not s.orelse:
             # a loop over a display written in place runs exactly once per element: unrolled completely
             pre = self._after_calls(st)
@@ -1170,6 +1175,9 @@ class _Ctx:
         elif isinstance(t, (ast.Tuple, ast.List)):
             if isinstance(v, Fresh) and st.contents.get(v) is not None and len(st.contents[v]) == len(t.elts):
                 v = TupleT(tuple(st.contents[v]))
+            if isinstance(v, IfT) and isinstance(v.a, TupleT) and isinstance(v.b, TupleT) and \
+                    len(v.a.items) == len(v.b.items) == len(t.elts):
+                v = TupleT(tuple(IfT(v.cond, x, y) if x != y else x for x, y in zip(v.a.items, v.b.items)))
             for i, e in enumerate(t.elts):
                 if isinstance(v, TupleT) and len(v.items) == len(t.elts):
                     self.assign(e, v.items[i], st, node, loopvar=loopvar)
@@ -1681,6 +1689,12 @@ class _Ctx:
                 self.store_event(st, e, fake, Attr(args[0], args[1].value), 'rebind', value=args[2], attr=args[1].value, aug=None,
                                  operand=None, base=args[0], base_expr=e.args[0], base_type=bt)
                 return Const(None)
+            if b in ('tuple', 'list') and len(args) == 1 and isinstance(args[0], Fresh) and st.contents.get(args[0]) is not None:
+                if b == 'tuple':
+                    return TupleT(tuple(st.contents[args[0]]))
+                r2 = Fresh('list', tuple(st.contents[args[0]]), e.lineno)
+                st.contents[r2] = tuple(st.contents[args[0]])
+                return r2
             if b in ('all', 'any') and len(args) == 1:
                 a0 = args[0]
                 if isinstance(a0, Fresh) and st.contents.get(a0) is not None:
